@@ -41,13 +41,19 @@ Kernels == {
     K("warnmistype2", << "10 N$(2)=5" >>),
     K("datamid", << "10 PRINT 1", "20 DATA 1,2", "30 DATA 3:DATA 4", "40 READ A,B,C:PRINT A+B+C", "50 DATA 5", "60 REM r", "70 DATA 6" >>),
     K("inputfail", << "10 K=0:INPUT A(K-1)", "20 PRINT \"not reached\"", "30 INPUT B$:PRINT B$" >>),
+    \* nested user functions whose inner call fails (the inspection PRINT G(0) at a breakpoint must leave no frame behind)
+    K("fnnest",  << "10 DEF F(X)=1/X:DEF G(Y)=F(Y)+1", "20 Y=5:STOP", "30 PRINT Y;G(1)" >>),
+    \* loops with an empty body on one line: still one statement per host call
+    K("delay",   << "10 FOR I=1 TO 3:NEXT I:PRINT I", "20 FOR J=3 TO 1 STEP -1:NEXT J", "30 PRINT J" >>),
+    \* which warning comes when: subscripts are evaluated before the array is looked at
+    K("warnorder", << "10 PRINT A(A(0));D(I)", "20 B(E(1))=F9:PRINT C(-1)" >>),
     K("input2",  << "10 IF 1 THEN INPUT X ELSE PRINT \"NO\"", "20 GOSUB 100:PRINT X;S$", "30 IF 0 THEN PRINT 1 ELSE INPUT Q(2):PRINT Q(2)", "40 END",
                     "100 INPUT S$:RETURN" >>)
 }
 KernelByName(n) == CHOOSE k \in Kernels : k.name = n
 
 \* what the host may type at the prompt
-Inspections == { B("PRINT X;I"), B("PRINT 1/0"), B("LIST"), B("NEXT Q9") }      \* NEXT Q9 fails (no such loop) and must disturb nothing
+Inspections == { B("PRINT X;I"), B("PRINT 1/0"), B("LIST"), B("NEXT Q9"), B("PRINT G(0)") }      \* NEXT Q9 fails (no such loop) and must disturb nothing
 Probes == { B("RETURN"), B("NEXT I"), B("READ Q"), B("PRINT F(1)"), B("GOTO 20"), B("GOTO 30"), B("X=7") }
 Edits == { B("15 REM"), B("10"), B("20 %"), B("100 RETURN") }
 Commands0 == { B("RUN"), B("CONT") }
